@@ -5,17 +5,30 @@ package vsync
 // In normal builds the shims carry no real synchronisation.
 type hbMutex struct{}
 
+//go:norace
 func (*hbMutex) acquire() {}
+
+//go:norace
 func (*hbMutex) release() {}
 
 type hbRWMutex struct{}
 
-func (*hbRWMutex) lock()    {}
-func (*hbRWMutex) unlock()  {}
-func (*hbRWMutex) rlock()   {}
+//go:norace
+func (*hbRWMutex) lock() {}
+
+//go:norace
+func (*hbRWMutex) unlock() {}
+
+//go:norace
+func (*hbRWMutex) rlock() {}
+
+//go:norace
 func (*hbRWMutex) runlock() {}
 
 type hbWaitGroup struct{}
 
+//go:norace
 func (*hbWaitGroup) add(int) {}
-func (*hbWaitGroup) wait()   {}
+
+//go:norace
+func (*hbWaitGroup) wait() {}
